@@ -30,6 +30,30 @@ theorem generated_tempdir_shape :
      Scipipe.sortedStringMapKeys.any (·.isCall "Strings") && Scipipe.sortedFileIPMapKeys.any (·.isCall "Strings") &&
      Scipipe.sortedFileIPSliceMapKeys.any (·.isCall "Strings")) = true := by decide
 
+/-- what the source of `splitAllPaths` says: the stop condition of its loop (`true` = the former
+`dir != file`), and that the loop prepends `file` and moves to `Dir(dir)`, `Base(dir)` -/
+def splitStopEq (l : List Atom) : Option Bool :=
+  match l.find? (·.kind == .forB_) with
+  | some a => if a.name == "dir != file" then some true
+              else if a.name == "file != \".\" && file != \"/\"" then some false else none
+  | none => none
+
+theorem generated_split_walk :
+    (let l := Scipipe.splitAllPaths
+     splitStopEq l == some false &&
+     l.any (fun a => a.kind == .assign_ && a.name == "dir,file" && a.recv == ":=" && a.args == ["filepath.Dir(path)", "filepath.Base(path)"]) &&
+     l.any (fun a => a.kind == .assign_ && a.name == "parts" && a.args == ["append([]string{file}, parts...)"]) &&
+     l.any (fun a => a.kind == .assign_ && a.name == "dir,file" && a.recv == "=" && a.args == ["filepath.Dir(dir)", "filepath.Base(dir)"]) &&
+     l.any (fun a => a.kind == .ret_ && a.args == ["parts"]) &&
+     count (fun a => a.kind == .ifB_ || a.kind == .continue_ || a.kind == .break_) l == 0) = true := by decide
+
+theorem c14_split_on_source (abs : Bool) (segs : List Str.S) :
+    Str.splitWalk ((splitStopEq Scipipe.splitAllPaths).getD true) abs segs.reverse [] = segs := by
+  have h : splitStopEq Scipipe.splitAllPaths = some false := by decide
+  rw [h]; exact Fmt.c14_split_returns_all_segments abs segs
+
 end SciVerif.Tie
+#print axioms SciVerif.Tie.generated_split_walk
+#print axioms SciVerif.Tie.c14_split_on_source
 #print axioms SciVerif.Tie.generated_consts_c14
 #print axioms SciVerif.Tie.generated_tempdir_shape
